@@ -9,6 +9,7 @@ import ast
 import builtins as _builtins
 import dataclasses
 import inspect
+import logging
 import os
 import sys
 import types
@@ -316,6 +317,14 @@ class Interp:
             yield from h(self, st, args, kwargs)
             return
         # bound native method
+        if isinstance(f, types.MethodType) and (isinstance(f.__self__, logging.Logger) or
+                                                type(f.__self__).__module__.split('.')[0] == 'prometheus_client'):
+            self.assumptions.add("logging / prometheus metric calls are effect-free and do not raise")
+            if type(f.__self__).__module__.split('.')[0] == 'prometheus_client' and f.__name__ == 'labels':
+                yield st, VConst(f.__self__)
+            else:
+                yield st, (VBool(False) if f.__name__ == 'isEnabledFor' else VNone)
+            return
         if isinstance(f, types.MethodType):
             yield from self.call(st, VConst(f.__func__), [lift(f.__self__)] + list(args), kwargs, node)
             return
@@ -1054,7 +1063,25 @@ class Interp:
             else:
                 raise Unsupported(f"iteration over {h}", node)
         elif isinstance(v, VSegs):
-            yield from self.iter_concrete(st, to_vbytes(v), node, live)
+            out = []
+            ok = True
+            for sg in v.segs:
+                if sg[0] == 'lit':
+                    out += [VInt(b) for b in sg[1]]
+                elif sg[2] == 1 and isinstance(sg[2], int):
+                    from .segs import seg_term
+                    t = seg_term(sg)
+                    if z3.is_app(t) and t.decl().kind() == z3.Z3_OP_STR_FROM_CODE:
+                        out.append(mk_int(t.arg(0)))
+                    else:
+                        out.append(mk_int(z3.StrToCode(t)))
+                else:
+                    ok = False
+                    break
+            if ok:
+                yield st, out
+            else:
+                yield from self.iter_concrete(st, to_vbytes(v), node, live)
         elif isinstance(v, VChars):
             yield st, [(VInt(c) if v.is_bytes else VChars([c], False)) for c in v.codes]
         elif isinstance(v, (VStr, VBytes)):
@@ -1699,6 +1726,9 @@ class Interp:
                 return
         if isinstance(a, VRef) or isinstance(b, VRef):
             yield from self.bm.ref_binop(self, st, op, a, b, node)
+            return
+        if isinstance(op, ast.Mod) and isinstance(a, (VStr, VBytes)) and a.concrete:
+            yield from self.alts(st, ops.fmt_percent(a, b, st))       # %-formatting (keeps byte-segment structure)
             return
         if isinstance(a, VSegs) or isinstance(b, VSegs):
             sa, sb = segs_of(a), segs_of(b)
